@@ -587,8 +587,11 @@ class UFModel:
     """
 
     def __init__(self, env, features, labels=('output',), reads=None, name='M', flavor='py', faults=None,
-                 varying_labels=False):
+                 varying_labels=False, memoise=False):
         self.env = env
+        self.memoise = memoise          # a deterministic model may return the SAME dict object for the same input (cache)
+        self._memo = {}
+        self.returned = []              # (dict object handed out, snapshot of its content)
         self.features = list(features)
         self.reads = list(features if reads is None else reads)
         self.labels = list(labels)
@@ -624,7 +627,21 @@ class UFModel:
             self.faults.tick('model')
         self.calls.append(dict(x))
         args = [x[f] for f in self.reads]
-        return {lab: self._fs[lab](*args, flavor=self.flavor) for lab in self.labels_for(x)}
+        if self.memoise:
+            k = self._key(x)
+            if k in self._memo:
+                return self._memo[k]
+        out = {lab: self._fs[lab](*args, flavor=self.flavor) for lab in self.labels_for(x)}
+        self.returned.append((out, dict(out)))
+        if self.memoise:
+            self._memo[self._key(x)] = out
+        return out
+
+    def outputs_intact(self):
+        """no prediction dict handed to the library was modified by it"""
+        from .core import same_term
+        return all(list(o.keys()) == list(snap.keys()) and all(same_term(o[k], snap[k]) for k in snap)
+                   for o, snap in self.returned)
 
     def __call__(self, x):
         if isinstance(x, dict):
